@@ -418,7 +418,7 @@ fn bases() -> Vec<(MsgKind, Vec<Field>)> {
     ]
 }
 
-const NMUT: usize = 52;
+const NMUT: usize = 53;
 
 /// apply mutation `m` at position `pos`; returns label: 1 = invalidating, 2 = preserving, 0 = unspecified/other, None = not applicable
 fn mutate(kind: MsgKind, fields: &mut Vec<Field>, m: usize, pos: usize) -> Option<u8> {
@@ -681,6 +681,11 @@ fn mutate(kind: MsgKind, fields: &mut Vec<Field>, m: usize, pos: usize) -> Optio
         }
         51 if kind == MsgKind::Request => {
             const NEAR: [&[u8]; 4] = [b"/a\tb", b"/ ", b" /", b"/a\0"];
+            set(fields, b":path", NEAR[pos % NEAR.len()]).then_some(1)
+        }
+        52 if kind == MsgKind::Request => {
+            // illegal bytes behind a '#': a URI parser that drops the fragment never looks at them (D25)
+            const NEAR: [&[u8]; 6] = [b"/a#\0", b"/a#\r\n", b"/#\n", b"/a?b#c d", b"/a#\x7f", b"#\0\xc2\x80"];
             set(fields, b":path", NEAR[pos % NEAR.len()]).then_some(1)
         }
         _ => None,
